@@ -5,7 +5,7 @@ from __future__ import annotations
 
 import ast
 
-from ..absval import Interp, Obj, Sym, Unknown, enumerate_paths
+from ..absval import Interp, Obj, RaiseSignal, Sym, Unknown, enumerate_paths
 from ..model import AnchorMissing, Func, Undecided, bind_args, dotted, norm, walk_no_nested
 from ..report import Ctx
 from ..variants import Variant
@@ -60,6 +60,156 @@ class _TM:
 SHAPE_OPS = {"squeeze", "reshape", "ravel", "flatten", "transpose", "swapaxes", "expand_dims", "pad", "roll"}
 
 
+# ----------------------------------------------------------------------------------------
+# face borders computed by hand (value changes along each axis) instead of by erosion
+# ----------------------------------------------------------------------------------------
+
+
+class _SA:
+    """the array a border function receives (a mask or label map); axis: the generic axis moved to the front"""
+
+    def __init__(self, axis=None):
+        self.axis = axis
+
+
+class _SB:
+    """a boolean array of the input's shape built up by the function: which voxels it marks.
+    terms (per generic axis): 'succ' value differs from the successor's, 'succ+last' the same with the last voxel
+    compared with background, 'pred' value differs from the predecessor's, 'first' / 'lastidx' the voxel is the
+    first / last of the axis.  fg: restricted to foreground at the end."""
+
+    def __init__(self):
+        self.terms = set()
+        self.fg = False
+        self.bad = []
+
+
+class _SBv:
+    def __init__(self, base, axis, lo=None, hi=None):
+        self.base, self.axis, self.lo, self.hi = base, axis, lo, hi
+
+
+class _Step:
+    """np.diff(a, axis=0[, append=0]) != 0 along the generic axis; lo/hi: sliced"""
+
+    def __init__(self, append0, boolean, lo=None, hi=None):
+        self.append0, self.boolean, self.lo, self.hi = append0, boolean, lo, hi
+
+
+class _Fg:
+    pass
+
+
+class StencilInterp(Interp):
+    def get_attr(self, base, attr, node):
+        if isinstance(base, _SA) and attr == "shape":
+            return Sym("SHAPE")
+        if isinstance(base, _SA) and attr == "ndim":
+            return Sym("NDIM")
+        return super().get_attr(base, attr, node)
+
+    def call_builtin(self, name, args, kwargs, node):
+        if name == "range" and len(args) == 1 and args[0] == Sym("NDIM"):
+            return [Sym("AXIS")]  # the body is run once for a generic axis; it must not decide on the axis
+        return super().call_builtin(name, args, kwargs, node)
+
+    def external_call(self, name, args, kwargs, node):
+        a = args
+        if name in ("numpy.zeros", "numpy.zeros_like") and a and (a[0] == Sym("SHAPE") or isinstance(a[0], _SA)):
+            dt = kwargs.get("dtype", a[1] if len(a) > 1 else None)
+            if (isinstance(dt, Sym) and dt.name.split(".")[-1].split(":")[-1] in ("bool", "bool_")) and not (set(kwargs) - {"dtype"}):
+                return _SB()
+        if name == "numpy.moveaxis" and len(a) == 3 and a[1] == Sym("AXIS") and a[2] == 0:
+            if isinstance(a[0], _SA) and a[0].axis is None:
+                return _SA(axis="AXIS")
+            if isinstance(a[0], _SB):
+                return _SBv(a[0], "AXIS")
+        if name == "numpy.diff" and a and isinstance(a[0], _SA) and a[0].axis == "AXIS" and kwargs.get("axis", a[2] if len(a) > 2 else None) == 0 and kwargs.get("n", a[1] if len(a) > 1 else 1) == 1 and not (set(kwargs) - {"axis", "append", "n"}):
+            ap = kwargs.get("append")
+            if ap is None or (isinstance(ap, (int, bool)) and ap == 0):
+                return _Step("append" in kwargs, False)
+        return Unknown(f"{name}(...)")
+
+    def compare_hook(self, op, l, r, node):
+        if isinstance(l, _Step) and not l.boolean and isinstance(r, int) and r == 0 and isinstance(op, ast.NotEq):
+            return _Step(l.append0, True, l.lo, l.hi)
+        if isinstance(l, _SA) and l.axis is None and isinstance(r, int) and r == 0 and isinstance(op, (ast.NotEq, ast.Gt)):
+            return _Fg()
+        return super().compare_hook(op, l, r, node)
+
+    def subscript_hook(self, base, idx, node):
+        if isinstance(idx, slice) and idx.step in (None, 1):
+            if isinstance(base, _SBv) and base.lo is None and base.hi is None:
+                return _SBv(base.base, base.axis, idx.start, idx.stop)
+            if isinstance(base, _Step) and base.lo is None and base.hi is None:
+                return _Step(base.append0, base.boolean, idx.start, idx.stop)
+        return super().subscript_hook(base, idx, node)
+
+    def binop_hook(self, op, l, r, node):
+        if isinstance(op, ast.BitOr) and isinstance(l, _SBv) and isinstance(r, _Step) and r.boolean:
+            tgt = (l.lo, l.hi)
+            src = (r.lo, r.hi)
+            if tgt == (None, None) and src == (None, None) and r.append0:
+                l.base.terms.add("succ+last")  # same length: position i gets "a[i] differs from a[i+1]" (background behind the last)
+            elif tgt == (None, -1) and src == (None, None) and not r.append0:
+                l.base.terms.add("succ")
+            elif tgt == (1, None) and ((src == (None, -1) and r.append0) or (src == (None, None) and not r.append0)):
+                l.base.terms.add("pred")  # position i >= 1 gets "a[i-1] differs from a[i]"
+            else:
+                l.base.bad.append(norm(node) if isinstance(node, ast.AST) else "?")
+            return l
+        if isinstance(op, ast.BitAnd) and isinstance(l, _SB) and isinstance(r, _Fg):
+            l.fg = True
+            return l
+        return super().binop_hook(op, l, r, node)
+
+    def store_subscript_hook(self, base, idx, v, node):
+        if isinstance(base, _SBv) and base.lo is None and isinstance(idx, slice) and idx.step in (None, 1):
+            if isinstance(v, _SBv) and v.base is base.base:
+                return  # the write-back of an in-place update of that very slice
+            if v is True and (idx.start, idx.stop) in ((None, 1), (0, 1)):
+                base.base.terms.add("first")
+                return
+            if v is True and (idx.start, idx.stop) == (-1, None):
+                base.base.terms.add("lastidx")
+                return
+        if isinstance(base, _SBv):
+            base.base.bad.append(norm(node) if isinstance(node, ast.AST) else "?")
+            return
+        return super().store_subscript_hook(base, idx, v, node)
+
+
+_STENCIL_CACHE: dict = {}
+
+
+def face_border_verdict(prog, f):
+    """(True, None) if f(mask) marks exactly the foreground voxels with a differing or out-of-array face neighbour,
+    (False, what is missing) if it marks them by the same scheme but leaves a case out, None if f is not such a function"""
+    key = (id(prog), f.qual)
+    if key in _STENCIL_CACHE:
+        return _STENCIL_CACHE[key]
+    res = None
+    if len(f.call_params) == 1 and f.cls is None:
+        try:
+            out = StencilInterp(prog, f, {f.call_params[0].name: _SA()}).run()
+            v = out.value if out.kind == "return" and not out.decisions else None
+            if isinstance(v, _SB) and v.terms and not v.bad:
+                missing = []
+                if not v.fg:
+                    missing.append("the marks are not restricted to foreground voxels")
+                if not ("succ+last" in v.terms or {"succ", "lastidx"} <= v.terms):
+                    missing.append("a voxel whose successor along an axis is background (or which is the last of the axis) is not marked" if "succ" not in v.terms and "succ+last" not in v.terms else "the last voxel of an axis (its successor lies outside of the array) is not marked")
+                if "pred" not in v.terms:
+                    missing.append("a voxel whose predecessor along an axis is background is not marked")
+                if "first" not in v.terms:
+                    missing.append("the first voxel of an axis (its predecessor lies outside of the array) is not marked")
+                res = (not missing, missing or None)
+        except (Undecided, RaiseSignal, RecursionError):
+            res = None
+    _STENCIL_CACHE[key] = res
+    return res
+
+
 class MorphInterp(ResultInterp):
     def __init__(self, *a, **kw):
         super().__init__(*a, **kw)
@@ -75,6 +225,8 @@ class MorphInterp(ResultInterp):
                 return Sym(f"{base.name}.{attr}")
             return _TM(base, attr)
         if isinstance(base, Term):
+            if attr == "ndim" and base.kind == "structure" and isinstance(base.kw.get("ndim"), Term):
+                return base.kw["ndim"]
             if attr == "flags":
                 return Sym("flags")
             if attr == "size" and base.kind in ("at", "border"):
@@ -168,6 +320,13 @@ class MorphInterp(ResultInterp):
             m = (list(args) + list(kwargs.values()))[0]
             if isinstance(m, MaskT):
                 return Term("extent", of=m, off=spans[f.qual])  # per axis: last - first + off (off = 1: the extent in voxels)
+        if self_obj is None and len(args) + len(kwargs) == 1:
+            m = (list(args) + list(kwargs.values()))[0]
+            if isinstance(m, MaskT):
+                fv_ = face_border_verdict(self.prog, f)
+                if fv_ is not None:
+                    # the border computed from value changes along every axis (decided on the function's own code)
+                    return Term("border", mask=m, by=f.qual, missing=tuple(fv_[1] or ()))
         return super().call_func(f, args, kwargs, node, self_obj=self_obj)
 
     def binop_hook(self, op, l, r, node):
@@ -203,6 +362,8 @@ class MorphInterp(ResultInterp):
         return super().subscript_hook(base, idx, node)
 
     def compare_hook(self, op, l, r, node):
+        if isinstance(l, Term) and l.kind == "ndim" and isinstance(r, Term) and r.kind == "ndim" and isinstance(op, (ast.Eq, ast.NotEq)):
+            return isinstance(op, ast.Eq)  # the two masks of a pair have one shape, hence one dimensionality
         if isinstance(l, Term) and l.kind == "ndim":
             return Unknown("ndim compare")
         if isinstance(l, Term) and l.kind == "minextent" and isinstance(r, int) and not isinstance(r, bool) and isinstance(op, (ast.LtE, ast.Lt)):
@@ -317,6 +478,10 @@ def _judge_chain(ctx, prog, f, res, suffix, tags):
             c2 = construct + f":{role}-border({m.name})"
             if is_border(b) == "flat":
                 ctx.decide("R07.2", f, f.node, c2 + ":mask", "the border is taken of the mask itself; a mask at most two voxels thick along an axis is its own border", ops_ok, {"mask": repr(m)})
+                continue
+            if "by" in b.kw:
+                ctx.decide("R07.2", f, f.node, c2 + ":mask", "the border is taken of the mask itself (no squeeze/reshape/shift before; array geometry decides which voxels have an out-of-array neighbour)", ops_ok, {"mask": repr(m)})
+                ctx.decide("R07.2", f, f.node, c2 + ":faces", f"{b.kw['by']} marks every foreground voxel with a background or out-of-array face neighbour (value changes towards both neighbours along every axis, first and last voxel of an axis)", not b.kw["missing"], {"missing": list(b.kw["missing"])} if b.kw["missing"] else None)
                 continue
             e = b.kw["erosion"]
             ctx.decide("R07.2", f, f.node, c2 + ":mask", "the border is taken of the mask itself (no squeeze/reshape/shift before; array geometry decides which voxels have an out-of-array neighbour)", ops_ok and e.kw["mask"] == m, {"mask": repr(m), "eroded": repr(e.kw["mask"])})
